@@ -330,4 +330,395 @@ theorem scalar_conf (p : Nat) (t : CqlTy) (g : GoVal) (ht : Marshal.CqlTy.isScal
            simp [Conf, marshalScalar, interpScalar, CqlVal.isNull, specEnc, h4, h16, hl16])
   | _ => simp [documentedScalar] at hd
 
+/-! ## nesting: list / set / map / tuple of anything, by structural induction -/
+
+/- every Go value inside `g` is a value of its Go type -/
+mutual
+def wf : GoVal → Prop
+  | .ptr v => wf v
+  | .slice _ vs => wfAll vs
+  | .array vs => wfAll vs
+  | .ifaces vs => wfAll vs
+  | .mapset vs => wfAll vs
+  | .struct vs => wfAll vs
+  | .udtmap _ _ vs => wfAll vs
+  | .udtstruct _ vs => wfAll vs
+  | .map _ kvs => wfPairs kvs
+  | g => wfScalar g
+def wfAll : List GoVal → Prop
+  | [] => True
+  | v :: vs => wf v ∧ wfAll vs
+def wfPairs : List (GoVal × GoVal) → Prop
+  | [] => True
+  | (k, v) :: r => wf k ∧ wf v ∧ wfPairs r
+end
+
+/- the type trees of this section: scalars, list, set, map and NON-EMPTY tuples at any depth (Cassandra has no
+    tuple without fields; gocql writes a nil slice for one).  UDTs: framing by `udtAssemble`, not in this induction -/
+mutual
+def nest : CqlTy → Bool
+  | .list e => nest e
+  | .set e => nest e
+  | .map k v => nest k && nest v
+  | .tuple ts => !ts.isEmpty && nestAll ts
+  | .udt _ _ => false
+  | _ => true
+def nestAll : List CqlTy → Bool
+  | [] => true
+  | t :: ts => nest t && nestAll ts
+end
+
+theorem collSize_count (p : Nat) (hp : p ≥ 3) (n : Nat) : collSize p (n:Int) = countFrame p n := by
+  have hp2 : p > 2 := by omega
+  simp only [collSize, countFrame, hp2, hp, if_true]
+  by_cases h : n < 2^31
+  · rw [if_neg (by omega), if_pos h, C12Frame.encInt_nat n h]
+  · rw [if_pos (by omega), if_neg h]
+
+theorem collItem_some (p : Nat) (hp : p ≥ 3) (b : Bytes) : collItem p (some b) = elemFrame p (some b) := by
+  have hp2 : p > 2 := by omega
+  simp only [collItem, collSize, elemFrame, hp2, hp, if_true]
+  by_cases h : b.length < 2^31
+  · rw [if_neg (by omega), if_pos h, encInt_eq, tcEnc_toS32]; rfl
+  · rw [if_pos (by omega), if_neg h]; rfl
+
+theorem collItem_none (p : Nat) (hp : p ≥ 3) : collItem p none = some [255, 255, 255, 255] := by
+  have hp2 : p > 2 := by omega
+  have : encInt (toS 32 (-1)) = [255, 255, 255, 255] := by decide
+  simp [collItem, collSize, hp2, this]
+
+def ConfElems (p : Nat) (et : CqlTy) (n : Nat) (r : MRes) (ocs : Option (List CqlVal)) : Prop :=
+  match r with
+  | .ok (some body) => body.length < 2^31 → ∃ cs, ocs = some cs ∧ cs.length = n ∧ specEncElems p et cs = some body
+  | .err => True
+  | _ => False
+
+theorem elems_conf (p : Nat) (hp : p ≥ 3) (et : CqlTy) :
+    ∀ vs : List GoVal, (∀ v ∈ vs, Conf p et (marshal p et v) (interp et v)) →
+      ConfElems p et vs.length (marshalElems p et vs) (interpList et vs)
+  | [], _ => by
+    simp [ConfElems, marshalElems, interpList, specEncElems]
+  | v :: vs, h => by
+    have hv := h v (List.mem_cons_self ..)
+    have ih := elems_conf p hp et vs (fun w hw => h w (List.mem_cons_of_mem _ hw))
+    rw [marshalElems, interpList]
+    cases hm : marshal p et v with
+    | ok item =>
+      rw [hm] at hv
+      cases item with
+      | none =>
+        simp only [Conf] at hv
+        simp only [collItem_none p hp]
+        cases hr : marshalElems p et vs with
+        | ok ob =>
+          rw [hr] at ih
+          cases ob with
+          | none => exact ih
+          | some rest =>
+            simp only [ConfElems] at ih ⊢
+            intro hl
+            obtain ⟨cs, hcs, hlen, hspec⟩ := ih (by simp at hl; omega)
+            refine ⟨.null :: cs, by simp [hv, hcs], by simp [hlen], ?_⟩
+            simp [specEncElems, elemOrNull, CqlVal.isNull, elemFrame, hp, hspec]
+        | err => trivial
+        | crash => rw [hr] at ih; exact ih
+        | unmodelled => rw [hr] at ih; exact ih
+      | some b =>
+        simp only [Conf] at hv
+        simp only [collItem_some p hp, elemFrame, hp, if_true]
+        by_cases hb : b.length < 2^31
+        · obtain ⟨c, hc, hnn, hs⟩ := hv hb
+          rw [if_pos hb]
+          cases hr : marshalElems p et vs with
+          | ok ob =>
+            rw [hr] at ih
+            cases ob with
+            | none => exact ih
+            | some rest =>
+              simp only [ConfElems] at ih ⊢
+              intro hl
+              obtain ⟨cs, hcs, hlen, hspec⟩ := ih (by simp at hl; omega)
+              refine ⟨c :: cs, by simp [hc, hcs], by simp [hlen], ?_⟩
+              simp [specEncElems, elemOrNull, hnn, hs, elemFrame, hp, hb, hspec]
+          | err => trivial
+          | crash => rw [hr] at ih; exact ih
+          | unmodelled => rw [hr] at ih; exact ih
+        · rw [if_neg hb]; trivial
+    | err => trivial
+    | crash => rw [hm] at hv; exact hv
+    | unmodelled => rw [hm] at hv; exact hv
+
+/-- count + elements: a list or a set -/
+theorem seq_conf (p : Nat) (hp : p ≥ 3) (et : CqlTy) (n : Nat) (r : MRes) (ocs : Option (List CqlVal))
+    (h : ConfElems p et n r ocs) :
+    Conf p (.list et) (wrapSeq p n r) (ocs.map CqlVal.list) ∧ Conf p (.set et) (wrapSeq p n r) (ocs.map CqlVal.list) := by
+  unfold wrapSeq
+  rw [collSize_count p hp]
+  cases hc : countFrame p n with
+  | none => exact ⟨trivial, trivial⟩
+  | some c =>
+    cases r with
+    | ok ob =>
+      cases ob with
+      | none => exact h.elim
+      | some body =>
+        simp only [ConfElems] at h
+        constructor <;>
+        · intro hl
+          obtain ⟨cs, hcs, hlen, hspec⟩ := h (by simp at hl; omega)
+          refine ⟨.list cs, by simp [hcs], rfl, ?_⟩
+          simp [specEnc, hlen, hc, hspec]
+    | err => exact ⟨trivial, trivial⟩
+    | crash => exact h.elim
+    | unmodelled => exact h.elim
+
+/-- one framed collection item -/
+def ConfItem (p : Nat) (t : CqlTy) (r : MRes) (oc : Option CqlVal) : Prop :=
+  match r with
+  | .ok item => (match collItem p item with
+      | none => True
+      | some e => e.length < 2^31 → ∃ c, oc = some c ∧ elemOrNull p c.isNull (specEnc p t c) = some e)
+  | .err => True
+  | _ => False
+
+theorem item_conf (p : Nat) (hp : p ≥ 3) (t : CqlTy) (r : MRes) (oc : Option CqlVal) (h : Conf p t r oc) :
+    ConfItem p t r oc := by
+  unfold ConfItem
+  cases r with
+  | ok item =>
+    cases item with
+    | none =>
+      simp only [collItem_none p hp]
+      intro _
+      exact ⟨.null, h, by simp [elemOrNull, CqlVal.isNull, elemFrame, hp]⟩
+    | some b =>
+      simp only [collItem_some p hp, elemFrame, hp, if_true]
+      by_cases hb : b.length < 2^31
+      · rw [if_pos hb]
+        intro _
+        obtain ⟨c, hc, hnn, hs⟩ := h hb
+        exact ⟨c, hc, by simp [elemOrNull, hnn, hs, elemFrame, hp, hb]⟩
+      · rw [if_neg hb]; trivial
+  | err => trivial
+  | crash => exact h
+  | unmodelled => exact h
+
+def ConfPairs (p : Nat) (kt vt : CqlTy) (n : Nat) (r : MRes) (ocs : Option (List (CqlVal × CqlVal))) : Prop :=
+  match r with
+  | .ok (some body) => body.length < 2^31 → ∃ cs, ocs = some cs ∧ cs.length = n ∧ specEncPairs p kt vt cs = some body
+  | .err => True
+  | _ => False
+
+theorem pairs_conf (p : Nat) (hp : p ≥ 3) (kt vt : CqlTy) :
+    ∀ kvs : List (GoVal × GoVal),
+      (∀ kv ∈ kvs, Conf p kt (marshal p kt kv.1) (interp kt kv.1) ∧ Conf p vt (marshal p vt kv.2) (interp vt kv.2)) →
+      ConfPairs p kt vt kvs.length (marshalPairs p kt vt kvs) (interpPairs kt vt kvs)
+  | [], _ => by
+    simp [ConfPairs, marshalPairs, interpPairs, specEncPairs]
+  | (k, v) :: r, h => by
+    obtain ⟨hk, hv⟩ := h (k, v) (List.mem_cons_self ..)
+    have ih := pairs_conf p hp kt vt r (fun w hw => h w (List.mem_cons_of_mem _ hw))
+    have ik := item_conf p hp kt _ _ hk
+    have iv := item_conf p hp vt _ _ hv
+    rw [marshalPairs, interpPairs]
+    simp only [] at hk hv
+    generalize marshal p kt k = rk at ik ⊢
+    generalize marshal p vt v = rv at iv ⊢
+    generalize interp kt k = ok at ik ⊢
+    generalize interp vt v = ov at iv ⊢
+    generalize marshalPairs p kt vt r = rr at ih ⊢
+    generalize interpPairs kt vt r = ocs at ih ⊢
+    cases rk with
+    | ok ki =>
+      simp only [ConfItem] at ik ⊢
+      cases hke : collItem p ki with
+      | none => trivial
+      | some ke =>
+        rw [hke] at ik
+        simp only at ik ⊢
+        cases rv with
+        | ok vi =>
+          simp only [ConfItem] at iv ⊢
+          cases hve : collItem p vi with
+          | none => trivial
+          | some ve =>
+            rw [hve] at iv
+            simp only at iv ⊢
+            cases rr with
+            | ok ob =>
+              cases ob with
+              | none => exact ih.elim
+              | some rest =>
+                simp only [ConfPairs] at ih ⊢
+                intro hl
+                simp only [List.length_append] at hl
+                obtain ⟨a, ha, hsa⟩ := ik (by omega)
+                obtain ⟨b, hb, hsb⟩ := iv (by omega)
+                obtain ⟨cs, hcs, hlen, hspec⟩ := ih (by omega)
+                refine ⟨(a, b) :: cs, by simp [ha, hb, hcs], by simp [hlen], ?_⟩
+                simp [specEncPairs, hsa, hsb, hspec]
+            | err => trivial
+            | crash => exact ih.elim
+            | unmodelled => exact ih.elim
+        | err => trivial
+        | crash => exact iv.elim
+        | unmodelled => exact iv.elim
+    | err => trivial
+    | crash => exact ik.elim
+    | unmodelled => exact ik.elim
+
+theorem map_conf (p : Nat) (hp : p ≥ 3) (kt vt : CqlTy) (n : Nat) (r : MRes) (ocs : Option (List (CqlVal × CqlVal)))
+    (h : ConfPairs p kt vt n r ocs) :
+    Conf p (.map kt vt) (wrapSeq p n r) (ocs.map CqlVal.map) := by
+  unfold wrapSeq
+  rw [collSize_count p hp]
+  cases hc : countFrame p n with
+  | none => trivial
+  | some c =>
+    cases r with
+    | ok ob =>
+      cases ob with
+      | none => exact h.elim
+      | some body =>
+        simp only [ConfPairs] at h
+        intro hl
+        obtain ⟨cs, hcs, hlen, hspec⟩ := h (by simp at hl; omega)
+        refine ⟨.map cs, by simp [hcs], rfl, ?_⟩
+        simp [specEnc, hlen, hc, hspec]
+    | err => trivial
+    | crash => exact h.elim
+    | unmodelled => exact h.elim
+
+/-! ### tuples -/
+
+def AllConf (p : Nat) : List CqlTy → List GoVal → Prop
+  | t :: ts, v :: vs => Conf p t (marshal p t v) (interp t v) ∧ AllConf p ts vs
+  | _, _ => True
+
+def ConfFields (p : Nat) (ts : List CqlTy) (r : MRes) (ocs : Option (List CqlVal)) : Prop :=
+  match r with
+  | .ok (some body) => body.length < 2^31 → ∃ cs, ocs = some cs ∧ specEncFields p ts cs = some body
+  | .err => True
+  | _ => False
+
+theorem interp_nil (t : CqlTy) (hn : nest t = true) : interp t .nil = some .null := by
+  cases t <;> simp [interp, interpScalar, nest] at hn ⊢
+
+theorem ifaces_conf (p : Nat) : ∀ (ts : List CqlTy) (vs : List GoVal), nestAll ts = true → AllConf p ts vs →
+    ConfFields p ts (marshalTupleIfaces p ts vs) (interpFields ts vs)
+  | [], _, _, _ => by simp [marshalTupleIfaces, interpFields, ConfFields, specEncFields]
+  | _ :: _, [], _, _ => by simp [marshalTupleIfaces, interpFields, ConfFields, specEncFields]
+  | t :: ts, v :: vs, hn, hall => by
+    simp only [nestAll, Bool.and_eq_true] at hn
+    obtain ⟨hv, hrest⟩ := hall
+    have ih := ifaces_conf p ts vs hn.2 hrest
+    rw [marshalTupleIfaces, interpFields]
+    have h0 : Conf p t (if v.isNil = true then MRes.ok none else marshal p t v) (interp t v) := by
+      by_cases hs : v.isNil = true
+      · rw [if_pos hs]
+        have := C12Coll.isNil_eq hs; subst this; exact interp_nil t hn.1
+      · rw [if_neg hs]; exact hv
+    generalize (if v.isNil = true then MRes.ok none else marshal p t v) = r0 at h0 ⊢
+    generalize interp t v = oc at h0 ⊢
+    generalize marshalTupleIfaces p ts vs = rr at ih ⊢
+    generalize interpFields ts vs = ocs at ih ⊢
+    cases r0 with
+    | ok item =>
+      cases rr with
+      | ok ob =>
+        cases ob with
+        | none => exact ih.elim
+        | some rest =>
+          simp only [ConfFields] at ih ⊢
+          intro hl
+          cases item with
+          | none =>
+            simp only [Conf] at h0
+            obtain ⟨cs, hcs, hspec⟩ := ih (by simp [List.length_append] at hl; omega)
+            refine ⟨.null :: cs, by simp [h0, hcs], ?_⟩
+            simp [specEncFields, fieldOrNull, CqlVal.isNull, bytesFrame, C12Coll.appendBytes_null, hspec]
+          | some b =>
+            simp only [Conf] at h0
+            have hb : b.length < 2^31 := by
+              rw [C12Coll.appendBytes_some] at hl
+              simp [List.length_append] at hl; omega
+            obtain ⟨c, hc, hnn, hs⟩ := h0 hb
+            obtain ⟨cs, hcs, hspec⟩ := ih (by simp [List.length_append] at hl; omega)
+            refine ⟨c :: cs, by simp [hc, hcs], ?_⟩
+            have hb' : b.length < 2147483648 := hb
+            simp [specEncFields, fieldOrNull, hnn, hs, hb', bytesFrame, C12Coll.appendBytes_some, hspec]
+      | err => trivial
+      | crash => exact ih.elim
+      | unmodelled => exact ih.elim
+    | err => trivial
+    | crash => exact h0.elim
+    | unmodelled => exact h0.elim
+
+theorem fields_conf (p : Nat) : ∀ (ts : List CqlTy) (vs : List GoVal), nestAll ts = true → AllConf p ts vs →
+    ConfFields p ts (marshalTupleFields p ts vs) (interpFields ts vs)
+  | [], _, _, _ => by simp [marshalTupleFields, interpFields, ConfFields, specEncFields]
+  | _ :: _, [], _, _ => by simp [marshalTupleFields, interpFields, ConfFields, specEncFields]
+  | t :: ts, v :: vs, hn, hall => by
+    simp only [nestAll, Bool.and_eq_true] at hn
+    obtain ⟨hv, hrest⟩ := hall
+    have ih := fields_conf p ts vs hn.2 hrest
+    rw [marshalTupleFields, interpFields]
+    have h0 : Conf p t (if v.isNilPtr = true then MRes.ok none else marshal p t v) (interp t v) := by
+      by_cases hs : v.isNilPtr = true
+      · rw [if_pos hs]
+        have := C12Coll.isNilPtr_eq hs; subst this; simp [Conf, interp]
+      · rw [if_neg hs]; exact hv
+    generalize (if v.isNilPtr = true then MRes.ok none else marshal p t v) = r0 at h0 ⊢
+    generalize interp t v = oc at h0 ⊢
+    generalize marshalTupleFields p ts vs = rr at ih ⊢
+    generalize interpFields ts vs = ocs at ih ⊢
+    cases r0 with
+    | ok item =>
+      cases rr with
+      | ok ob =>
+        cases ob with
+        | none => exact ih.elim
+        | some rest =>
+          simp only [ConfFields] at ih ⊢
+          intro hl
+          cases item with
+          | none =>
+            simp only [Conf] at h0
+            obtain ⟨cs, hcs, hspec⟩ := ih (by simp [List.length_append] at hl; omega)
+            refine ⟨.null :: cs, by simp [h0, hcs], ?_⟩
+            simp [specEncFields, fieldOrNull, CqlVal.isNull, bytesFrame, C12Coll.appendBytes_null, hspec]
+          | some b =>
+            simp only [Conf] at h0
+            have hb : b.length < 2^31 := by
+              rw [C12Coll.appendBytes_some] at hl
+              simp [List.length_append] at hl; omega
+            obtain ⟨c, hc, hnn, hs⟩ := h0 hb
+            obtain ⟨cs, hcs, hspec⟩ := ih (by simp [List.length_append] at hl; omega)
+            refine ⟨c :: cs, by simp [hc, hcs], ?_⟩
+            have hb' : b.length < 2147483648 := hb
+            simp [specEncFields, fieldOrNull, hnn, hs, hb', bytesFrame, C12Coll.appendBytes_some, hspec]
+      | err => trivial
+      | crash => exact ih.elim
+      | unmodelled => exact ih.elim
+    | err => trivial
+    | crash => exact h0.elim
+    | unmodelled => exact h0.elim
+
+theorem tuple_conf (p : Nat) (ts : List CqlTy) (hne : ts ≠ []) (r : MRes) (ocs : Option (List CqlVal))
+    (h : ConfFields p ts r ocs) : Conf p (.tuple ts) (wrapTuple ts r) (ocs.map CqlVal.tuple) := by
+  unfold wrapTuple
+  rw [if_neg hne]
+  cases r with
+  | ok ob =>
+    cases ob with
+    | none => exact h.elim
+    | some body =>
+      simp only [ConfFields] at h
+      intro hl
+      obtain ⟨cs, hcs, hspec⟩ := h hl
+      exact ⟨.tuple cs, by simp [hcs], rfl, by simp [specEnc, hspec]⟩
+  | err => trivial
+  | crash => exact h.elim
+  | unmodelled => exact h.elim
+
 end C12Nest
